@@ -713,8 +713,34 @@ def _ensure_codepoints_will_have_glyphs(ufo, glyph_inputs):
     ufo.glyphOrder = ufo.glyphOrder + sorted(glyph_names)
 
 
+def _check_inputs_are_unambiguous(inputs: Iterable[InputGlyph]):
+    """Two inputs with the same glyph name or codepoints would silently replace each other."""
+    by_name = {}
+    by_codepoints = {}
+    for glyph_input in inputs:
+        src = glyph_input.svg_file or glyph_input.bitmap_file
+        if glyph_input.glyph_name in by_name:
+            raise ValueError(
+                f"{by_name[glyph_input.glyph_name]} and {src} both map to"
+                f" glyph name {glyph_input.glyph_name}"
+            )
+        by_name[glyph_input.glyph_name] = src
+        if not glyph_input.codepoints:
+            continue
+        codepoints = tuple(glyph_input.codepoints)
+        if codepoints in by_codepoints:
+            raise ValueError(
+                f"{by_codepoints[codepoints]} and {src} both map to"
+                f" codepoints {codepoints}"
+            )
+        by_codepoints[codepoints] = src
+
+
 def _generate_color_font(config: FontConfig, inputs: Iterable[InputGlyph]):
     """Make a UFO and optionally a TTFont from svgs."""
+    inputs = tuple(inputs)
+    _check_inputs_are_unambiguous(inputs)
+
     ufo = _ufo(config)
     _ensure_codepoints_will_have_glyphs(ufo, inputs)
 
